@@ -215,6 +215,7 @@ def run_case(i, tier):
         okpaths = [p for p in paths if p.exc is None]
         cnt["skipped_exception"] += len(paths) - len(okpaths)
         outcomes = {}
+        by_record = {}
         res_dist = {}
         any_tb = False
         for p in okpaths:
@@ -232,6 +233,10 @@ def run_case(i, tier):
                 continue
             if not recorded:
                 outcomes.setdefault("no_tb", set()).add(states)
+            else:
+                # all randomness of a run goes into its recorded resolutions: runs that record the same resolutions in the
+                # same rounds must be the same run
+                by_record.setdefault(tuple(recorded), set()).add(states)
             # (2) structure
             msg = check_structure(label, what, states, case, mkind)
             if msg:
@@ -273,6 +278,12 @@ def run_case(i, tier):
         if len(outcomes.get("no_tb", ())) > 1:
             out["viols"].append(_viol("seed_dependent_outcome", label, kw, i,
                                       "different outcomes occur on paths that record no tiebreak"))
+        for rec, sts in by_record.items():
+            if len(sts) > 1:
+                out["viols"].append(_viol("unrecorded_randomness", label, kw, i,
+                                          f"{len(sts)} different outcomes record the same tiebreak resolutions {vkit.jsonable(rec)}: "
+                                          "some random draw that changed the outcome is not recorded"))
+                break
         # (3) law of the round-1 resolution
         if len(okpaths) != len(paths):
             res_dist = {}  # some paths raised (judged by C01): the law over the remaining paths is not meaningful
